@@ -103,6 +103,8 @@ module N :
 
   val eqb : n -> n -> bool
 
+  val leb : n -> n -> bool
+
   val ltb : n -> n -> bool
 
   val to_nat : n -> nat
@@ -129,6 +131,8 @@ val fold_left : ('a1 -> 'a2 -> 'a1) -> 'a2 list -> 'a1 -> 'a1
 val fold_right : ('a2 -> 'a1 -> 'a1) -> 'a1 -> 'a2 list -> 'a1
 
 val existsb : ('a1 -> bool) -> 'a1 list -> bool
+
+val forallb : ('a1 -> bool) -> 'a1 list -> bool
 
 val seq : nat -> nat -> nat list
 
@@ -487,6 +491,10 @@ val inc_register : unit m
 
 val get_reg : n m
 
+val alloc_emit : (n -> instr) -> n m
+
+val bump : n m
+
 val emit : instr -> unit m
 
 val set_inner_name : string -> unit m
@@ -672,3 +680,13 @@ val bodies :
   list * block list) sum
 
 val run : program -> run_result
+
+val def_reg : instr -> n option
+
+val defs : instr list -> n list
+
+val increasing_from : n -> n list -> bool
+
+val chk_C09_root : block -> bool
+
+val chk_C09 : output -> bool
